@@ -831,7 +831,7 @@ func (e *c15Env) eventKind(info *types.Info, call *ast.CallExpr) string {
 	if len(call.Args) < 1 {
 		return ""
 	}
-	n, ok := info.TypeOf(call.Args[0]).(*types.Named)
+	n, ok := info.TypeOf(c16StripConv(info, call.Args[0])).(*types.Named)
 	if !ok || n.Obj().Pkg() == nil {
 		return ""
 	}
@@ -869,14 +869,17 @@ func runC15(c *Ctx) {
 		"routing over arbitrary trees and histories (focus changed by a command in mid-dispatch, path recomputation after a frame, overlapping siblings in the hit list)",
 		"whether widgets themselves honour the phase they are called with",
 	}
-	c.expect("C15.a", 52)
-	c.expect("C15.b", 23)
+	// minima: the obligations that exist whatever way the code is cut (one per mandatory check of each rule), not today's instance counts
+	c.expect("C15.a", 46)
+	c.expect("C15.b", 13)
 	c.expect("C15.c", 11)
-	c.expect("C15.d", 16)
-	c.expect("C15.e", 22)
-	c.expect("C15.f", 12)
+	c.expect("C15.d", 15)
+	c.expect("C15.e", 12)
+	c.expect("C15.f", 11)
 	c.expect("C15.g", 12)
 
+	// helper extraction is undone first: the rules below look at the named functions with their helpers inlined
+	c15Normalise(c, []string{"vxfw"}, c15Anchors)
 	pk := c.P.Pkg("vxfw")
 	if pk == nil {
 		c.undecided("C15.a", "vxfw", 0, "package vxfw not found")
@@ -984,6 +987,14 @@ func runC15(c *Ctx) {
 	e.ruleF()
 	e.ruleG()
 	c15Dump(c)
+}
+
+// c15Anchors: functions the C15/C16 rules (and the extra rules of the main author) look up by name; they are
+// analysed as units and never inlined into their callers.
+var c15Anchors = map[string]bool{
+	"handleEvent": true, "handleCommand": true, "focusWidget": true, "update": true, "mouseExit": true, "hitTest": true,
+	"containsPoint": true, "updatePath": true, "childHasFocus": true, "layout": true, "render": true, "debugPrintWidget": true,
+	"drawSoftwrap": true, "findContainerSize": true, "firstLineSegment": true, "cells": true,
 }
 
 // c15Dump lists every obligation when VXCHECK_DUMP is set (for confirming instance counts by reading).
@@ -1141,40 +1152,63 @@ func (e *c15Env) ruleA(name string, list *types.Var, mouse bool) {
 	evArg(bubS, "bubble")
 
 	// --- capture loop shape
-	var capRange *ast.RangeStmt
+	var capLoop ast.Stmt // the capture loop (range or index form)
+	var capAnchor ast.Node
 	{
 		loops := c15EnclosingLoops(e.parents, capS.call)
-		rs, _ := func() (*ast.RangeStmt, bool) {
-			if len(loops) == 1 {
-				r, ok := loops[0].(*ast.RangeStmt)
-				return r, ok
-			}
-			return nil, false
-		}()
-		if rs == nil {
-			c.undecided("C15.a", name+"/capture loop", capS.call.Pos(), "the CaptureEvent call is not inside exactly one range loop")
+		var it *c15Iter
+		if len(loops) == 1 {
+			it = c15IterOf(info, defs, loops[0])
+		}
+		if it == nil || !it.full {
+			c.undecided("C15.a", name+"/capture loop", capS.call.Pos(), "the CaptureEvent call is not inside exactly one loop that visits every element of a list front to back")
 		} else {
-			capRange = rs
-			c.check(isList(rs.X), "C15.a", name+"/capture ranges forward over "+list.Name(), rs.Pos(),
-				"range over "+recvObj.Name()+"."+list.Name()+" (root first)", "the capture loop ranges over "+types.ExprString(rs.X)+", not over the root-to-target list "+list.Name()+": capturers are offered the event in the wrong order or not at all")
-			// receiver: c := <elem>.(EventCapturer)
+			capLoop, capAnchor = it.stmt, it.anchor
+			c.check(isList(it.x), "C15.a", name+"/capture ranges forward over "+list.Name(), it.stmt.Pos(),
+				"iterates "+recvObj.Name()+"."+list.Name()+" front to back (root first)", "the capture loop iterates over "+types.ExprString(it.x)+", not over the root-to-target list "+list.Name()+": capturers are offered the event in the wrong order or not at all")
+			// receiver: <elem>.(EventCapturer), bound by an assertion, an if-init or a type switch clause
 			okRecv := false
 			why := "receiver not recognised"
 			if sel, ok := capS.call.Fun.(*ast.SelectorExpr); ok {
+				var asserted ast.Expr
 				x := defs.resolve(sel.X)
 				if ta, ok := unparen(x).(*ast.TypeAssertExpr); ok && ta.Type != nil {
-					el := elemOf(ta.X)
-					if id, ok := el.(*ast.Ident); ok && rs.Value != nil {
-						if vid, ok := rs.Value.(*ast.Ident); ok && info.ObjectOf(vid) == info.ObjectOf(id) {
-							okRecv = true
+					asserted = ta.X
+				} else if id, ok := unparen(sel.X).(*ast.Ident); ok {
+					// the per-clause variable of `switch c := <elem>.(type) { case EventCapturer: ... }`
+					obj := info.ObjectOf(id)
+					ast.Inspect(it.body, func(n ast.Node) bool {
+						ts, ok := n.(*ast.TypeSwitchStmt)
+						if !ok {
+							return true
 						}
-					}
-					if !okRecv {
-						why = "the capturer is obtained from " + types.ExprString(ta.X) + ", not from the ranged element"
+						for _, cc := range ts.Body.List {
+							cl := cc.(*ast.CaseClause)
+							if info.Implicits[cl] != obj || len(cl.List) != 1 {
+								continue
+							}
+							if tv, ok := info.Types[cl.List[0]]; !ok || !tv.IsType() || !types.Identical(tv.Type, e.capturerNamed) {
+								continue
+							}
+							if as, ok := ts.Assign.(*ast.AssignStmt); ok && len(as.Rhs) == 1 {
+								if ta, ok := unparen(as.Rhs[0]).(*ast.TypeAssertExpr); ok {
+									asserted = ta.X
+								}
+							}
+						}
+						return true
+					})
+				}
+				if asserted != nil {
+					el := elemOf(asserted)
+					if el != nil && it.isElem(el) {
+						okRecv = true
+					} else {
+						why = "the capturer is obtained from " + types.ExprString(asserted) + ", not from the element being visited"
 					}
 				}
 			}
-			c.check(okRecv, "C15.a", name+"/capture is called on the ranged element", capS.call.Pos(), "receiver is the ranged element asserted to EventCapturer", why)
+			c.check(okRecv, "C15.a", name+"/capture is called on the ranged element", capS.call.Pos(), "receiver is the visited element asserted to EventCapturer", why)
 		}
 	}
 	// --- target shape
@@ -1267,8 +1301,8 @@ func (e *c15Env) ruleA(name string, list *types.Var, mouse bool) {
 		}
 	}
 	// --- phase order
-	if capRange != nil {
-		xNode := capRange.X
+	if capLoop != nil {
+		xNode := capAnchor
 		c.check(g.MustPrecede(func(n ast.Node) bool { return n == xNode }, tgtS.h.Loc), "C15.a", name+"/capture loop precedes target", tgtS.call.Pos(),
 			"every path to the target dispatch runs the capture loop first", "the target dispatch is reachable without running the capture loop")
 	}
@@ -1322,15 +1356,13 @@ func (e *c15Env) ruleA(name string, list *types.Var, mouse bool) {
 		}
 		return c15Clean
 	}
-	in := c15Flow(g, c15Dirty, transfer, edge)
+	pf := c15NewPFlow(g, transfer, edge)
+	pf.run(g.Entry(), c15Dirty)
 	if oddTest {
 		c.undecided("C15.a", name+"/consume test form", fd.Pos(), "a condition mentions consumeEvent in a form the recogniser does not understand")
 	}
 	stateAt := func(l Loc) int {
-		st := in[l.B]
-		for i := 0; i < l.Idx; i++ {
-			st = transfer(l.B.Nodes[i], st)
-		}
+		st, _ := pf.stateAt(l)
 		return st
 	}
 	for _, s := range []struct {
@@ -1349,8 +1381,8 @@ func (e *c15Env) ruleA(name string, list *types.Var, mouse bool) {
 	}
 	// --- no early exit from the phases
 	firstLoc := Loc{}
-	if capRange != nil {
-		firstLoc, _ = g.Locate(capRange.X)
+	if capLoop != nil {
+		firstLoc, _ = g.Locate(capAnchor)
 	}
 	for _, h := range g.Find(func(n ast.Node) bool {
 		switch t := n.(type) {
@@ -1361,12 +1393,12 @@ func (e *c15Env) ruleA(name string, list *types.Var, mouse bool) {
 		}
 		return false
 	}) {
-		if capRange == nil {
+		if capLoop == nil {
 			break
 		}
 		inPhaseLoop := false
 		for _, l := range c15EnclosingLoops(e.parents, h.Node) {
-			if l == ast.Stmt(capRange) || (bubFor != nil && l == ast.Stmt(bubFor)) {
+			if l == capLoop || (bubFor != nil && l == ast.Stmt(bubFor)) {
 				inPhaseLoop = true
 			}
 		}
@@ -1391,7 +1423,7 @@ func (e *c15Env) ruleA(name string, list *types.Var, mouse bool) {
 			"a normal return is reachable after routing started although the event was not consumed and the bubble phase has not finished: later handlers never see the event")
 	}
 	// break / goto out of a phase loop (go/cfg lowers them to edges, so look at the syntax)
-	for _, lp := range []ast.Stmt{capRange, bubFor} {
+	for _, lp := range []ast.Stmt{capLoop, bubFor} {
 		var body *ast.BlockStmt
 		switch t := lp.(type) {
 		case *ast.RangeStmt:
@@ -1661,7 +1693,16 @@ func (e *c15Env) ruleB() {
 		other := []string{}
 		var calls []*ast.CallExpr
 		nested := false
-		for _, st := range own.cc.Body {
+		var stmts []ast.Stmt
+		for _, st := range c15Flat(own.cc.Body) {
+			// `if err := effect(); err != nil { log }` : the init statement is the effect
+			if ifs, ok := st.(*ast.IfStmt); ok && ifs.Init != nil {
+				stmts = append(stmts, ifs.Init, &ast.IfStmt{Cond: ifs.Cond, Body: ifs.Body, Else: ifs.Else})
+				continue
+			}
+			stmts = append(stmts, st)
+		}
+		for _, st := range stmts {
 			switch t := st.(type) {
 			case *ast.AssignStmt:
 				for i, l := range t.Lhs {
@@ -1812,39 +1853,40 @@ func (e *c15Env) renderArg(a ast.Expr, bound, recvObj types.Object) string {
 func (e *c15Env) batchCase(name string, tn *types.TypeName, cc *ast.CaseClause, bound, recvObj types.Object, self *types.Func) {
 	c, info := e.c, e.info
 	key := name + "/case " + tn.Name() + " recurses element-wise once"
-	if len(cc.Body) != 1 {
+	body := c15Flat(cc.Body)
+	if len(body) != 1 {
 		c.bad("C15.b", key, cc.Pos(), "the batch case is not a single loop over the batch")
 		return
 	}
-	rs, ok := cc.Body[0].(*ast.RangeStmt)
-	if !ok {
-		c.undecided("C15.b", key, cc.Pos(), "the batch case is not a range loop")
+	defs := c15DefsOf(info, cc)
+	it := c15IterOf(info, defs, body[0])
+	if it == nil || !it.full {
+		c.undecided("C15.b", key, cc.Pos(), "the batch case is not a loop that visits every element front to back")
 		return
 	}
-	xid, ok := unparen(rs.X).(*ast.Ident)
+	xid, ok := c16StripConv(info, defs.resolve(c16StripConv(info, it.x))).(*ast.Ident)
 	if !ok || info.Uses[xid] != bound {
-		c.bad("C15.b", key, rs.Pos(), "the loop does not range over the batch itself")
+		c.bad("C15.b", key, it.stmt.Pos(), "the loop does not iterate over the batch itself")
 		return
 	}
-	vid, _ := rs.Value.(*ast.Ident)
-	if vid == nil || len(rs.Body.List) != 1 {
-		c.bad("C15.b", key, rs.Pos(), "the loop body is not exactly one recursive handleCommand call on the element (elements are skipped or interpreted more than once)")
+	lb := c15Flat(it.body.List)
+	if len(lb) != 1 {
+		c.bad("C15.b", key, it.stmt.Pos(), "the loop body is not exactly one recursive handleCommand call on the element (elements are skipped or interpreted more than once)")
 		return
 	}
-	es, _ := rs.Body.List[0].(*ast.ExprStmt)
+	es, _ := lb[0].(*ast.ExprStmt)
 	var call *ast.CallExpr
 	if es != nil {
 		call, _ = es.X.(*ast.CallExpr)
 	}
 	okCall := call != nil && calleeOf(info, call) == self && len(call.Args) == 1
 	if okCall {
-		aid, ok := unparen(call.Args[0]).(*ast.Ident)
-		okCall = ok && info.ObjectOf(aid) == info.ObjectOf(vid)
+		okCall = it.isElem(call.Args[0])
 		if sel, ok := call.Fun.(*ast.SelectorExpr); !ok || rootObj(info, sel.X) != recvObj {
 			okCall = false
 		}
 	}
-	c.check(okCall, "C15.b", key, rs.Pos(), "for _, c := range batch { a.handleCommand(c) }", "the loop body is not exactly one recursive handleCommand call on the element: batch members are dropped or interpreted by something else")
+	c.check(okCall, "C15.b", key, it.stmt.Pos(), "for each element c of the batch, in order: a.handleCommand(c)", "the loop body is not exactly one recursive handleCommand call on the element: batch members are dropped or interpreted by something else")
 }
 
 // ---------------------------------------------------------------------------
@@ -2040,75 +2082,89 @@ func (e *c15Env) ruleD() {
 	e.ruleDRun()
 }
 
-// c15DiffLoop recognises
+// diffLoop recognises (in any loop spelling, label name, operand order)
 //
-//	L: for _, h1 := range A { for _, h2 := range B { if h1 == h2 { continue L } }; h1.w.HandleEvent(E{}, ...) }
+//	L: for each h1 of A { for each h2 of B { if h1 == h2 { continue L } }; h1.w.HandleEvent(E{}, ...) }
 //
 // and returns A, B for the loop enclosing call.
-func (e *c15Env) diffLoop(call *ast.CallExpr) (a, b ast.Expr, why string) {
+func (e *c15Env) diffLoop(g *FG, defs *c15Defs, call *ast.CallExpr) (a, b ast.Expr, why string) {
 	info := e.info
 	loops := c15EnclosingLoops(e.parents, call)
 	if len(loops) != 1 {
 		return nil, nil, "the notification is not sent from exactly one enclosing loop"
 	}
-	outer, ok := loops[0].(*ast.RangeStmt)
-	if !ok || outer.Value == nil {
-		return nil, nil, "outer loop is not a range with a value variable"
+	outer := c15IterOf(info, defs, loops[0])
+	if outer == nil || !outer.full {
+		return nil, nil, "the outer loop does not visit every element of a list"
 	}
-	h1 := info.ObjectOf(outer.Value.(*ast.Ident))
-	// receiver is h1.w
 	sel, _ := call.Fun.(*ast.SelectorExpr)
-	if sel == nil || c15Field(info, sel.X) != e.hit["w"] || rootObj(info, sel.X) != h1 {
-		return nil, nil, "the notification does not go to the ranged hit's widget"
+	if sel == nil || c15Field(info, defs.resolve(sel.X)) != e.hit["w"] || !outer.isElem(unparen(defs.resolve(sel.X)).(*ast.SelectorExpr).X) {
+		return nil, nil, "the notification does not go to the visited hit's widget"
 	}
-	lbl, _ := e.parents[outer].(*ast.LabeledStmt)
-	// inner membership loop: a direct child of the outer body preceding the call
-	var inner *ast.RangeStmt
-	for _, st := range outer.Body.List {
-		if rs, ok := st.(*ast.RangeStmt); ok {
-			if inner != nil {
-				return nil, nil, "several inner loops"
+	lbl, _ := e.parents[outer.stmt].(*ast.LabeledStmt)
+	// the membership loop: the only loop nested in the outer body
+	var inners []ast.Stmt
+	var find func(n ast.Node)
+	find = func(n ast.Node) {
+		ast.Inspect(n, func(m ast.Node) bool {
+			if m == nil || m == n {
+				return true
 			}
-			inner = rs
-		}
+			switch m.(type) {
+			case *ast.ForStmt, *ast.RangeStmt:
+				inners = append(inners, m.(ast.Stmt))
+				return false
+			case *ast.FuncLit:
+				return false
+			}
+			return true
+		})
 	}
-	if inner == nil || inner.Value == nil || len(inner.Body.List) != 1 {
-		return nil, nil, "no inner membership loop of the expected form"
+	find(outer.body)
+	if len(inners) != 1 {
+		return nil, nil, fmt.Sprintf("expected one membership loop inside the outer loop, found %d", len(inners))
 	}
-	h2 := info.ObjectOf(inner.Value.(*ast.Ident))
-	ifs, ok := inner.Body.List[0].(*ast.IfStmt)
-	if !ok || ifs.Init != nil || ifs.Else != nil || len(ifs.Body.List) != 1 {
-		return nil, nil, "inner loop body is not a single if"
+	inner := c15IterOf(info, defs, inners[0])
+	if inner == nil || !inner.full {
+		return nil, nil, "the membership loop does not visit every element of a list"
+	}
+	if containsNode(inner.stmt, func(n ast.Node) bool { return n == ast.Node(call) }) {
+		return nil, nil, "the notification is sent from inside the membership loop"
+	}
+	ib := c15Flat(inner.body.List)
+	if len(ib) != 1 {
+		return nil, nil, "the membership loop body is not a single test"
+	}
+	ifs, ok := ib[0].(*ast.IfStmt)
+	if !ok || ifs.Init != nil || ifs.Else != nil {
+		return nil, nil, "the membership loop body is not a single if"
 	}
 	be, ok := unparen(ifs.Cond).(*ast.BinaryExpr)
 	if !ok || be.Op != token.EQL {
 		return nil, nil, "membership test is not an equality"
 	}
-	x, y := rootObj(info, be.X), rootObj(info, be.Y)
-	_, xi := unparen(be.X).(*ast.Ident)
-	_, yi := unparen(be.Y).(*ast.Ident)
-	if !(xi && yi && ((x == h1 && y == h2) || (x == h2 && y == h1))) {
-		return nil, nil, "membership test does not compare the two ranged hits"
+	if !((outer.isElem(be.X) && inner.isElem(be.Y)) || (outer.isElem(be.Y) && inner.isElem(be.X))) {
+		return nil, nil, "membership test does not compare the two visited hits"
 	}
-	br, ok := ifs.Body.List[0].(*ast.BranchStmt)
+	tb := c15Flat(ifs.Body.List)
+	if len(tb) == 0 {
+		return nil, nil, "a found element does not continue the outer loop"
+	}
+	br, ok := tb[0].(*ast.BranchStmt)
 	if !ok || br.Tok != token.CONTINUE || br.Label == nil || lbl == nil || info.ObjectOf(br.Label) != info.ObjectOf(lbl.Label) {
 		return nil, nil, "a found element does not `continue` the outer loop"
 	}
-	// the inner loop precedes the send in the outer body
-	innerFirst := false
-	for _, st := range outer.Body.List {
-		if st == ast.Stmt(inner) {
-			innerFirst = true
-			break
-		}
-		if containsNode(st, func(n ast.Node) bool { return n == ast.Node(call) }) {
-			break
-		}
+	// within one outer iteration the send comes after the membership loop
+	cl, ok1 := g.Locate(call)
+	il, ok2 := g.Locate(inner.anchor)
+	if !ok1 || !ok2 {
+		return nil, nil, "loop not located in the CFG"
 	}
-	if !innerFirst {
-		return nil, nil, "the notification is sent before the membership test"
+	ol, ok3 := g.Locate(outer.anchor)
+	if ok3 && g.ReachesAvoiding(ol, cl, func(n ast.Node) bool { return n == inner.anchor }) && ol != il {
+		return nil, nil, "the notification can be sent without the membership test"
 	}
-	return outer.X, inner.X, ""
+	return outer.x, inner.x, ""
 }
 
 func (e *c15Env) ruleDUpdate() {
@@ -2160,7 +2216,7 @@ func (e *c15Env) ruleDUpdate() {
 		kind := e.eventKind(info, call)
 		seen[kind]++
 		key := name + "/" + kind + " goes to the right difference"
-		a, b, why := e.diffLoop(call)
+		a, b, why := e.diffLoop(g, c15DefsOf(info, fi.Decl.Body), call)
 		if why != "" {
 			c.undecided("C15.d", key, call.Pos(), "diff loop not recognised: %s", why)
 			continue
@@ -2261,13 +2317,15 @@ func (e *c15Env) ruleDExit() {
 	why := fmt.Sprintf("expected one MouseLeave send, found %d dispatches", len(sends))
 	if len(sends) == 1 {
 		call := sends[0].Node.(*ast.CallExpr)
-		why = "the send is not `for _, h := range m.lastHits { h.w.HandleEvent(MouseLeave{}, TargetPhase) }`"
+		why = "the send is not `for each h of m.lastHits { h.w.HandleEvent(MouseLeave{}, TargetPhase) }`"
 		loops := c15EnclosingLoops(e.parents, call)
+		defs := c15DefsOf(info, fi.Decl.Body)
 		if len(loops) == 1 && e.eventKind(info, call) == "MouseLeave" && e.phaseOf(info, call) == "TargetPhase" {
-			if rs, ok := loops[0].(*ast.RangeStmt); ok && rs.Value != nil && c15Field(info, rs.X) == lastHits && rootObj(info, rs.X) == recvObj {
-				h := info.ObjectOf(rs.Value.(*ast.Ident))
-				if sel, ok := call.Fun.(*ast.SelectorExpr); ok && c15Field(info, sel.X) == e.hit["w"] && rootObj(info, sel.X) == h {
-					okSend = true
+			if it := c15IterOf(info, defs, loops[0]); it != nil && it.full && c15Field(info, it.x) == lastHits && rootObj(info, it.x) == recvObj {
+				if sel, ok := call.Fun.(*ast.SelectorExpr); ok {
+					if rx, ok := unparen(defs.resolve(sel.X)).(*ast.SelectorExpr); ok && c15Field(info, rx) == e.hit["w"] && it.isElem(rx.X) {
+						okSend = true
+					}
 				}
 			}
 		}
@@ -2326,7 +2384,15 @@ func (e *c15Env) ruleDRun() {
 		return
 	}
 	callsExit, clearsMouse := false, false
-	for _, st := range clause.Body {
+	var body []ast.Stmt
+	for _, st := range c15Flat(clause.Body) {
+		if ifs, ok := st.(*ast.IfStmt); ok && ifs.Init != nil {
+			body = append(body, ifs.Init)
+			continue
+		}
+		body = append(body, st)
+	}
+	for _, st := range body {
 		switch t := st.(type) {
 		case *ast.AssignStmt:
 			for i, l := range t.Lhs {
@@ -2580,41 +2646,68 @@ func (e *c15Env) ruleF() {
 				id, ok := unparen(cl.Args[0]).(*ast.Ident)
 				return ok && info.ObjectOf(id) == cmdObj
 			}
-			lost := ""
-			var interpLocs []Loc
-			g.walk(Loc{h.B, h.Idx + 1}, func(l Loc, n ast.Node) bool {
-				if containsNode(n, isInterp) {
-					interpLocs = append(interpLocs, l)
-					return false
+			const (
+				fPending = 1
+				fDone    = 2
+				fTwice   = 4
+				fLost    = 8
+				fClosed  = 16
+			)
+			transfer := func(n ast.Node, st int) int {
+				out := st & (fTwice | fLost | fClosed)
+				if st&fPending != 0 {
+					switch {
+					case containsNode(n, isInterp):
+						out |= fDone
+					case containsNode(n, isDispatch):
+						out |= fLost
+					default:
+						out |= fPending
+					}
 				}
-				if containsNode(n, isDispatch) && lost == "" {
+				if st&fDone != 0 {
+					switch {
+					case containsNode(n, isInterp):
+						out |= fTwice
+					case assignsAny(info, n, map[types.Object]bool{cmdObj: true}):
+						out |= fClosed
+					default:
+						out |= fDone
+					}
+				}
+				return out
+			}
+			pf := c15NewPFlow(g, transfer, nil)
+			pf.join = func(a, b int) int { return a | b }
+			pf.run(Loc{h.B, h.Idx + 1}, fPending)
+			lost := ""
+			twice := false
+			reached := false
+			for _, b := range g.Blocks {
+				st, ok := pf.stateAt(Loc{b, len(b.Nodes)})
+				if !ok {
+					continue
+				}
+				if st&fDone != 0 || st&fClosed != 0 {
+					reached = true
+				}
+				if st&fLost != 0 && lost == "" {
 					lost = "the next dispatch is reached"
 				}
-				return true
-			}, func(b *cfg.Block) {
-				if !c15ErrExit(info, b) && lost == "" {
+				if st&fTwice != 0 {
+					twice = true
+				}
+				if len(b.Succs) == 0 && g.isNormalExit(b) && !c15ErrExit(info, b) && st&fPending != 0 && lost == "" {
 					lost = "a normal return is reached"
 				}
-			})
+			}
 			if lost != "" {
 				c.bad("C15.f", key, call.Pos(), "%s without handleCommand(%s): the command the handler returned is dropped", lost, cmdObj.Name())
 				continue
 			}
-			if len(interpLocs) == 0 {
+			if !reached {
 				c.bad("C15.f", key, call.Pos(), "handleCommand(%s) is never reached", cmdObj.Name())
 				continue
-			}
-			twice := false
-			for _, il := range interpLocs {
-				g.walk(Loc{il.B, il.Idx + 1}, func(l Loc, n ast.Node) bool {
-					if assignsAny(info, n, map[types.Object]bool{cmdObj: true}) {
-						return false
-					}
-					if containsNode(n, isInterp) {
-						twice = true
-					}
-					return true
-				}, nil)
 			}
 			c.check(!twice, "C15.f", key, call.Pos(), "handleCommand("+cmdObj.Name()+") on every non-error path, once", "the same returned command can reach handleCommand a second time: it takes effect twice")
 		}
@@ -2643,13 +2736,11 @@ func (e *c15Env) ruleG() {
 				ps = append(ps, info.Defs[n])
 			}
 		}
-		var ret *ast.ReturnStmt
-		if len(fd.Body.List) == 1 {
-			ret, _ = fd.Body.List[0].(*ast.ReturnStmt)
-		}
-		if recvObj == nil || len(ps) != 2 || ret == nil || len(ret.Results) != 1 {
-			c.undecided("C15.g", name+"/shape", fd.Pos(), "containsPoint is not a single return of a condition over (col, row)")
+		retF := c15BoolBody(info, fd.Body.List)
+		if recvObj == nil || len(ps) != 2 || retF == nil {
+			c.undecided("C15.g", name+"/shape", fd.Pos(), "containsPoint is not a side-effect free decision (ifs and returns) over (col, row)")
 		} else {
+			ret := fd.Body
 			colP, rowP := ps[0], ps[1]
 			if ps[0].Name() == "row" || ps[1].Name() == "col" {
 				colP, rowP = ps[1], ps[0]
@@ -2668,7 +2759,7 @@ func (e *c15Env) ruleG() {
 				or.add(row, -1).canon():                      "row >= Origin.Row",
 				row.add(or, -1).add(hgt, -1).plus(1).canon(): "row < Origin.Row + Height",
 			}
-			atoms, isConj := c15Conj(c15Formula(info, ret.Results[0]))
+			atoms, isConj := c15Conj(retF)
 			if !isConj {
 				c.undecided("C15.g", name+"/shape", ret.Pos(), "the returned condition is not a conjunction of comparisons")
 			} else {
@@ -2786,17 +2877,16 @@ func (e *c15Env) ruleG() {
 	}
 	rc := recs[0].Node.(*ast.CallExpr)
 	loops := c15EnclosingLoops(e.parents, rc)
-	var rs *ast.RangeStmt
+	var it *c15Iter
 	if len(loops) == 1 {
-		rs, _ = loops[0].(*ast.RangeStmt)
+		it = c15IterOf(info, defs, loops[0])
 	}
-	if rs == nil || rs.Value == nil {
-		c.undecided("C15.g", name+"/recursion into children", rc.Pos(), "the recursion is not inside one range loop with a value variable")
+	if it == nil || !it.full {
+		c.undecided("C15.g", name+"/recursion into children", rc.Pos(), "the recursion is not inside one loop that visits every child")
 		return
 	}
-	ssObj := info.ObjectOf(rs.Value.(*ast.Ident))
-	xs, _ := unparen(rs.X).(*ast.SelectorExpr)
-	c.check(xs != nil && xs.Sel.Name == "Children" && rootObj(info, rs.X) == sP, "C15.g", name+"/every child is examined", rs.Pos(), "ranges over s.Children", "the loop does not range over the surface's children")
+	xs, _ := unparen(it.x).(*ast.SelectorExpr)
+	c.check(xs != nil && xs.Sel.Name == "Children" && rootObj(info, it.x) == sP, "C15.g", name+"/every child is examined", it.stmt.Pos(), "iterates over s.Children", "the loop does not iterate over the surface's children")
 	guarded := false
 	for _, gd := range g.Guards(recs[0].Loc) {
 		x := unparen(gd.Cond.Expr)
@@ -2811,7 +2901,7 @@ func (e *c15Env) ruleG() {
 		}
 		if cl, ok := x.(*ast.CallExpr); ok && pol && gd.Cond.Tag == nil && calleeOf(info, cl) == cp.Obj && len(cl.Args) == 2 &&
 			isObj(cl.Args[0], colP) && isObj(cl.Args[1], rowP) {
-			if sel, ok := cl.Fun.(*ast.SelectorExpr); ok && rootObj(info, sel.X) == ssObj {
+			if sel, ok := cl.Fun.(*ast.SelectorExpr); ok && it.isElem(sel.X) {
 				guarded = true
 			}
 		}
@@ -2822,19 +2912,21 @@ func (e *c15Env) ruleG() {
 		c.undecided("C15.g", name+"/recursion arguments", rc.Pos(), "unexpected argument count")
 		return
 	}
-	s0, _ := unparen(rc.Args[0]).(*ast.SelectorExpr)
-	c.check(s0 != nil && s0.Sel.Name == "Surface" && rootObj(info, rc.Args[0]) == ssObj && isObj(rc.Args[1], hitsP), "C15.g", name+"/recursion on the child's surface with the same list", rc.Pos(),
+	s0, _ := unparen(defs.resolve(rc.Args[0])).(*ast.SelectorExpr)
+	c.check(s0 != nil && s0.Sel.Name == "Surface" && it.isElem(s0.X) && isObj(rc.Args[1], hitsP), "C15.g", name+"/recursion on the child's surface with the same list", rc.Pos(),
 		"hitTest(child.Surface, hits, ...)", "the recursion does not descend into the child's surface with the accumulated list")
-	ssr := fmt.Sprintf("%p", ssObj)
 	for _, d := range []struct {
 		arg   ast.Expr
 		p     types.Object
 		field string
 	}{{rc.Args[2], colP, "Col"}, {rc.Args[3], rowP, "Row"}} {
-		want := c15TermLin(fmt.Sprintf("%p", d.p), d.p.Name(), true).add(c15TermLin(ssr+".Origin."+d.field, ssObj.Name()+".Origin."+d.field, false), -1)
-		got := c15LinOf(info, defs.resolve(d.arg))
-		c.check(got.canon() == want.canon(), "C15.g", name+"/child-relative "+strings.ToLower(d.field), d.arg.Pos(), d.p.Name()+" - child.Origin."+d.field,
-			"the child is hit-tested at "+got.String()+" instead of "+want.String()+": grandchildren are tested against the wrong point")
+		arg := defs.resolve(d.arg)
+		got := c15LinOf(info, arg)
+		origin, found := it.elemField(arg, "Origin", d.field)
+		pT := c15TermLin(fmt.Sprintf("%p", d.p), d.p.Name(), true)
+		okArg := found && got.canon() == pT.add(origin, -1).canon()
+		c.check(okArg, "C15.g", name+"/child-relative "+strings.ToLower(d.field), d.arg.Pos(), d.p.Name()+" - child.Origin."+d.field,
+			"the child is hit-tested at "+got.String()+" instead of "+d.p.Name()+" - child.Origin."+d.field+": grandchildren are tested against the wrong point")
 	}
 	// result flows back and is returned
 	okBack := false
@@ -2851,4 +2943,689 @@ func (e *c15Env) ruleG() {
 		return true
 	})
 	c.check(okBack && retOK, "C15.g", name+"/accumulated list is returned", fd.Pos(), "hits = hitTest(...); return hits", "the hits found in children are not accumulated into the returned list")
+}
+
+// ---------------------------------------------------------------------------
+// forward iteration, whatever its spelling
+
+// c15Iter describes a loop that visits the elements of a collection front to back:
+//
+//	for _, v := range X      for i := range X      for i, v := range X      for i := 0; i < len(X); i++
+type c15Iter struct {
+	stmt   ast.Stmt
+	body   *ast.BlockStmt
+	x      ast.Expr // the collection
+	xID    string
+	val    types.Object // value variable (or nil)
+	idx    types.Object // index variable (or nil)
+	full   bool         // every element is visited (no extra loop condition)
+	anchor ast.Node     // a node evaluated whenever the loop is entered
+	info   *types.Info
+	defs   *c15Defs
+}
+
+func c15IterOf(info *types.Info, defs *c15Defs, st ast.Stmt) *c15Iter {
+	switch t := st.(type) {
+	case *ast.RangeStmt:
+		it := &c15Iter{stmt: t, body: t.Body, x: t.X, xID: termOf(info, c16StripConvAll(info, t.X)).ID, full: true, anchor: t.X, info: info, defs: defs}
+		if id, ok := t.Key.(*ast.Ident); ok && id.Name != "_" {
+			it.idx = info.ObjectOf(id)
+		}
+		if id, ok := t.Value.(*ast.Ident); ok && id.Name != "_" {
+			it.val = info.ObjectOf(id)
+		}
+		// ranging over an integer / channel / map / string is not an element iteration
+		switch info.TypeOf(t.X).Underlying().(type) {
+		case *types.Slice, *types.Array:
+		case *types.Pointer:
+		default:
+			return nil
+		}
+		return it
+	case *ast.ForStmt:
+		if t.Init == nil || t.Cond == nil || t.Post == nil {
+			return nil
+		}
+		as, ok := t.Init.(*ast.AssignStmt)
+		if !ok || len(as.Lhs) != 1 || len(as.Rhs) != 1 {
+			return nil
+		}
+		id, ok := as.Lhs[0].(*ast.Ident)
+		if !ok {
+			return nil
+		}
+		iObj := info.ObjectOf(id)
+		if v, ok := constInt(info, as.Rhs[0]); !ok || v != 0 {
+			return nil
+		}
+		if inc, ok := c16Advance(info, t.Post, iObj); !ok || inc.canon() != c15Const(1).canon() {
+			return nil
+		}
+		if assignsAny(info, t.Body, map[types.Object]bool{iObj: true}) {
+			return nil
+		}
+		// the condition: a conjunction with the bound i < len(X)
+		iT := c15LinOf(info, as.Lhs[0])
+		var conj []ast.Expr
+		var split func(e ast.Expr)
+		split = func(e ast.Expr) {
+			e = unparen(e)
+			if b, ok := e.(*ast.BinaryExpr); ok && b.Op == token.LAND {
+				split(b.X)
+				split(b.Y)
+				return
+			}
+			conj = append(conj, e)
+		}
+		split(t.Cond)
+		var x ast.Expr
+		for _, cj := range conj {
+			atoms, isConj := c15Conj(c15Formula(info, cj))
+			if !isConj || len(atoms) != 1 {
+				continue
+			}
+			ast.Inspect(cj, func(n ast.Node) bool {
+				cl, ok := n.(*ast.CallExpr)
+				if !ok || len(cl.Args) != 1 {
+					return true
+				}
+				if fid, ok := cl.Fun.(*ast.Ident); ok && fid.Name == "len" {
+					want := iT.add(c15LinOf(info, cl), -1).plus(1) // i - len(X) + 1 <= 0
+					if atoms[0].canon() == want.canon() {
+						x = cl.Args[0]
+					}
+				}
+				return true
+			})
+		}
+		if x == nil {
+			return nil
+		}
+		return &c15Iter{stmt: t, body: t.Body, x: x, xID: termOf(info, c16StripConvAll(info, x)).ID, idx: iObj, full: len(conj) == 1, anchor: t.Cond, info: info, defs: defs}
+	}
+	return nil
+}
+
+func c16StripConvAll(info *types.Info, e ast.Expr) ast.Expr { return c16StripConv(info, e) }
+
+// isElem: does e denote the element visited in the current iteration?
+func (it *c15Iter) isElem(e ast.Expr) bool {
+	if e == nil {
+		return false
+	}
+	if it.defs != nil {
+		e = it.defs.resolve(e)
+	}
+	e = unparen(e)
+	if id, ok := e.(*ast.Ident); ok {
+		return it.val != nil && it.info.ObjectOf(id) == it.val
+	}
+	if ix, ok := e.(*ast.IndexExpr); ok && it.idx != nil {
+		if id, ok := unparen(ix.Index).(*ast.Ident); ok && it.info.ObjectOf(id) == it.idx {
+			return termOf(it.info, c16StripConv(it.info, ix.X)).ID == it.xID
+		}
+	}
+	return false
+}
+
+// elemField finds, inside e, a selector  <elem>.<path...>  and returns its canonical term.
+func (it *c15Iter) elemField(e ast.Expr, path ...string) (c15Lin, bool) {
+	var out c15Lin
+	found := false
+	ast.Inspect(e, func(n ast.Node) bool {
+		sel, ok := n.(*ast.SelectorExpr)
+		if !ok || found {
+			return !found
+		}
+		cur := ast.Expr(sel)
+		okPath := true
+		for i := len(path) - 1; i >= 0; i-- {
+			s, ok := unparen(cur).(*ast.SelectorExpr)
+			if !ok || s.Sel.Name != path[i] {
+				okPath = false
+				break
+			}
+			cur = s.X
+		}
+		if okPath && it.isElem(cur) {
+			out, found = c15LinOf(it.info, sel), true
+		}
+		return !found
+	})
+	return out, found
+}
+
+// c15LoopOf returns the innermost for/range statement enclosing n (nil if none).
+func c15LoopOf(parents map[ast.Node]ast.Node, n ast.Node) ast.Stmt {
+	l := c15EnclosingLoops(parents, n)
+	if len(l) == 0 {
+		return nil
+	}
+	return l[0]
+}
+
+// c15Flat lists the statements of a body with nested plain blocks (and labelled statements) flattened.
+func c15Flat(list []ast.Stmt) []ast.Stmt {
+	var out []ast.Stmt
+	for _, st := range list {
+		switch t := st.(type) {
+		case *ast.BlockStmt:
+			out = append(out, c15Flat(t.List)...)
+		case *ast.LabeledStmt:
+			out = append(out, c15Flat([]ast.Stmt{t.Stmt})...)
+		case *ast.EmptyStmt:
+		default:
+			// `_ = x` keeps a variable used: no effect
+			if as, ok := st.(*ast.AssignStmt); ok && len(as.Lhs) == 1 {
+				if id, ok := as.Lhs[0].(*ast.Ident); ok && id.Name == "_" {
+					if _, isCall := unparen(as.Rhs[0]).(*ast.CallExpr); !isCall {
+						continue
+					}
+				}
+			}
+			out = append(out, st)
+		}
+	}
+	return out
+}
+
+// ---------------------------------------------------------------------------
+// partitioned forward analysis: a small abstract interpreter that keeps, next to the rule's own
+// state, what is known about boolean / nil-able locals (so that `stop, err = true, nil; ...;
+// if err != nil {..}; if stop {..}` is followed along feasible paths only).
+
+type c15PState map[string]int // env key -> rule state (join = max)
+
+type c15PFlow struct {
+	g        *FG
+	info     *types.Info
+	tracked  map[types.Object]bool
+	transfer func(n ast.Node, st int) int
+	edge     func(b *cfg.Block, succ int, st int) int // may be nil
+	in       map[*cfg.Block]c15PState
+	start    Loc
+	init     int
+	join     func(a, b int) int // default: max
+}
+
+func (pf *c15PFlow) j(a, b int) int {
+	if pf.join != nil {
+		return pf.join(a, b)
+	}
+	if a > b {
+		return a
+	}
+	return b
+}
+
+func c15EnvGet(env string, o types.Object) string {
+	key := fmt.Sprintf("%p=", o)
+	for _, kv := range strings.Split(env, ";") {
+		if strings.HasPrefix(kv, key) {
+			return kv[len(key):]
+		}
+	}
+	return ""
+}
+
+func c15EnvSet(env string, o types.Object, val string) string {
+	key := fmt.Sprintf("%p=", o)
+	var parts []string
+	for _, kv := range strings.Split(env, ";") {
+		if kv != "" && !strings.HasPrefix(kv, key) {
+			parts = append(parts, kv)
+		}
+	}
+	if val != "" {
+		parts = append(parts, key+val)
+	}
+	sort.Strings(parts)
+	return strings.Join(parts, ";")
+}
+
+func c15NewPFlow(g *FG, transfer func(ast.Node, int) int, edge func(*cfg.Block, int, int) int) *c15PFlow {
+	pf := &c15PFlow{g: g, info: g.Info, tracked: map[types.Object]bool{}, transfer: transfer, edge: edge}
+	// tracked: locals of bool / interface / pointer type that are never address-taken or captured
+	banned := map[types.Object]bool{}
+	ast.Inspect(g.Body, func(n ast.Node) bool {
+		switch t := n.(type) {
+		case *ast.FuncLit:
+			ast.Inspect(t, func(m ast.Node) bool {
+				if id, ok := m.(*ast.Ident); ok {
+					if o := g.Info.ObjectOf(id); o != nil {
+						banned[o] = true
+					}
+				}
+				return true
+			})
+			return false
+		case *ast.UnaryExpr:
+			if id, ok := unparen(t.X).(*ast.Ident); ok && t.Op == token.AND {
+				banned[g.Info.ObjectOf(id)] = true
+			}
+		}
+		return true
+	})
+	ast.Inspect(g.Body, func(n ast.Node) bool {
+		id, ok := n.(*ast.Ident)
+		if !ok {
+			return true
+		}
+		v, ok := g.Info.Defs[id].(*types.Var)
+		if !ok || v.IsField() || banned[v] {
+			return true
+		}
+		switch u := v.Type().Underlying().(type) {
+		case *types.Basic:
+			if u.Info()&types.IsBoolean != 0 {
+				pf.tracked[v] = true
+			}
+		case *types.Interface, *types.Pointer:
+			pf.tracked[v] = true
+		}
+		return true
+	})
+	return pf
+}
+
+// absVal evaluates e abstractly: "t","f","nil","nonnil" or "" (unknown).
+func (pf *c15PFlow) absVal(e ast.Expr, env string) string {
+	e = unparen(e)
+	if tv, ok := pf.info.Types[e]; ok && tv.Value != nil {
+		switch tv.Value.String() {
+		case "true":
+			return "t"
+		case "false":
+			return "f"
+		}
+		return ""
+	}
+	if isNilExpr(pf.info, e) {
+		return "nil"
+	}
+	switch t := e.(type) {
+	case *ast.Ident:
+		if o := pf.info.ObjectOf(t); o != nil && pf.tracked[o] {
+			return c15EnvGet(env, o)
+		}
+	case *ast.UnaryExpr:
+		if t.Op == token.NOT {
+			switch pf.absVal(t.X, env) {
+			case "t":
+				return "f"
+			case "f":
+				return "t"
+			}
+		}
+		if t.Op == token.AND {
+			return "nonnil"
+		}
+	case *ast.CompositeLit:
+		return ""
+	}
+	return ""
+}
+
+// cond evaluates a condition: +1, -1, 0.
+func (pf *c15PFlow) cond(e ast.Expr, env string) int {
+	e = unparen(e)
+	switch v := pf.absVal(e, env); v {
+	case "t":
+		return 1
+	case "f":
+		return -1
+	}
+	switch t := e.(type) {
+	case *ast.UnaryExpr:
+		if t.Op == token.NOT {
+			return -pf.cond(t.X, env)
+		}
+	case *ast.BinaryExpr:
+		switch t.Op {
+		case token.LAND:
+			a, b := pf.cond(t.X, env), pf.cond(t.Y, env)
+			if a == -1 || b == -1 {
+				return -1
+			}
+			if a == 1 && b == 1 {
+				return 1
+			}
+		case token.LOR:
+			a, b := pf.cond(t.X, env), pf.cond(t.Y, env)
+			if a == 1 || b == 1 {
+				return 1
+			}
+			if a == -1 && b == -1 {
+				return -1
+			}
+		case token.EQL, token.NEQ:
+			a, b := pf.absVal(t.X, env), pf.absVal(t.Y, env)
+			if a != "" && b != "" {
+				eq := 0
+				switch {
+				case a == b && (a == "nil" || a == "t" || a == "f"):
+					eq = 1
+				case (a == "nil" && b == "nonnil") || (a == "nonnil" && b == "nil") || (a == "t" && b == "f") || (a == "f" && b == "t"):
+					eq = -1
+				}
+				if t.Op == token.NEQ {
+					eq = -eq
+				}
+				return eq
+			}
+		}
+	}
+	return 0
+}
+
+// refine adds what cond == pol tells about tracked variables.
+func (pf *c15PFlow) refine(e ast.Expr, pol bool, env string) string {
+	e = unparen(e)
+	switch t := e.(type) {
+	case *ast.Ident:
+		if o := pf.info.ObjectOf(t); o != nil && pf.tracked[o] {
+			if b, ok := o.Type().Underlying().(*types.Basic); ok && b.Info()&types.IsBoolean != 0 {
+				return c15EnvSet(env, o, map[bool]string{true: "t", false: "f"}[pol])
+			}
+		}
+	case *ast.UnaryExpr:
+		if t.Op == token.NOT {
+			return pf.refine(t.X, !pol, env)
+		}
+	case *ast.BinaryExpr:
+		switch t.Op {
+		case token.LAND:
+			if pol {
+				return pf.refine(t.Y, true, pf.refine(t.X, true, env))
+			}
+		case token.LOR:
+			if !pol {
+				return pf.refine(t.Y, false, pf.refine(t.X, false, env))
+			}
+		case token.EQL, token.NEQ:
+			isEq := (t.Op == token.EQL) == pol
+			for _, pr := range [][2]ast.Expr{{t.X, t.Y}, {t.Y, t.X}} {
+				id, ok := unparen(pr[0]).(*ast.Ident)
+				if !ok {
+					continue
+				}
+				o := pf.info.ObjectOf(id)
+				if o == nil || !pf.tracked[o] {
+					continue
+				}
+				switch pf.absVal(pr[1], env) {
+				case "nil":
+					return c15EnvSet(env, o, map[bool]string{true: "nil", false: "nonnil"}[isEq])
+				case "t":
+					return c15EnvSet(env, o, map[bool]string{true: "t", false: "f"}[isEq])
+				case "f":
+					return c15EnvSet(env, o, map[bool]string{true: "f", false: "t"}[isEq])
+				}
+			}
+		}
+	}
+	return env
+}
+
+// envAfter applies the assignments of a CFG node to the environment.
+func (pf *c15PFlow) envAfter(n ast.Node, env string) string {
+	set := func(l ast.Expr, val string) {
+		if id, ok := unparen(l).(*ast.Ident); ok {
+			if o := pf.info.ObjectOf(id); o != nil && pf.tracked[o] {
+				env = c15EnvSet(env, o, val)
+			}
+		}
+	}
+	inspectNoLit(n, func(m ast.Node) bool {
+		switch t := m.(type) {
+		case *ast.AssignStmt:
+			if len(t.Lhs) == len(t.Rhs) && (t.Tok == token.ASSIGN || t.Tok == token.DEFINE) {
+				vals := make([]string, len(t.Rhs))
+				for i, r := range t.Rhs {
+					vals[i] = pf.absVal(r, env)
+				}
+				for i, l := range t.Lhs {
+					set(l, vals[i])
+				}
+			} else {
+				for _, l := range t.Lhs {
+					set(l, "")
+				}
+			}
+		case *ast.ValueSpec:
+			for i, nm := range t.Names {
+				val := ""
+				if i < len(t.Values) && len(t.Values) == len(t.Names) {
+					val = pf.absVal(t.Values[i], env)
+				} else if len(t.Values) == 0 {
+					if o := pf.info.ObjectOf(nm); o != nil {
+						switch u := o.Type().Underlying().(type) {
+						case *types.Basic:
+							if u.Info()&types.IsBoolean != 0 {
+								val = "f"
+							}
+						case *types.Interface, *types.Pointer:
+							val = "nil"
+						}
+					}
+				}
+				set(nm, val)
+			}
+		case *ast.RangeStmt:
+			if t.Key != nil {
+				set(t.Key, "")
+			}
+			if t.Value != nil {
+				set(t.Value, "")
+			}
+		}
+		return true
+	})
+	return env
+}
+
+// run computes the fixpoint from the given start location with the given initial rule state.
+func (pf *c15PFlow) run(start Loc, init int) {
+	pf.in = map[*cfg.Block]c15PState{}
+	pf.start, pf.init = start, init
+	startState := c15PState{"": init}
+	var work []*cfg.Block
+	// the start block is processed from start.Idx with startState; re-entries (loops) use pf.in
+	process := func(b *cfg.Block, from int, st c15PState) {
+		cur := c15PState{}
+		for k, v := range st {
+			cur[k] = v
+		}
+		for i := from; i < len(b.Nodes); i++ {
+			next := c15PState{}
+			for env, v := range cur {
+				nv := pf.transfer(b.Nodes[i], v)
+				ne := pf.envAfter(b.Nodes[i], env)
+				if old, ok := next[ne]; ok {
+					nv = pf.j(old, nv)
+				}
+				next[ne] = nv
+			}
+			cur = next
+		}
+		cnd := pf.g.BranchCond(b)
+		for si, s := range b.Succs {
+			out := c15PState{}
+			for env, v := range cur {
+				ne, nv := env, v
+				if cnd != nil && len(b.Succs) == 2 {
+					var ce ast.Expr = cnd.Expr
+					if cnd.Tag != nil {
+						ce = &ast.BinaryExpr{X: cnd.Tag, Op: token.EQL, Y: cnd.Expr}
+					}
+					pol := si == 0
+					switch pf.cond(ce, env) {
+					case 1:
+						if !pol {
+							continue
+						}
+					case -1:
+						if pol {
+							continue
+						}
+					}
+					ne = pf.refine(ce, pol, env)
+				}
+				if pf.edge != nil {
+					nv = pf.edge(b, si, nv)
+				}
+				if old, ok := out[ne]; ok {
+					nv = pf.j(old, nv)
+				}
+				out[ne] = nv
+			}
+			if len(out) == 0 {
+				continue
+			}
+			dst := pf.in[s]
+			if dst == nil {
+				dst = c15PState{}
+				pf.in[s] = dst
+			}
+			changed := false
+			if len(dst) > 64 { // widen: forget the environments
+				first := true
+				m := 0
+				for _, v := range dst {
+					if first {
+						m, first = v, false
+					} else {
+						m = pf.j(m, v)
+					}
+				}
+				for _, v := range out {
+					if first {
+						m, first = v, false
+					} else {
+						m = pf.j(m, v)
+					}
+				}
+				if len(dst) != 1 || dst[""] != m {
+					for k := range dst {
+						delete(dst, k)
+					}
+					dst[""] = m
+					changed = true
+				}
+			} else {
+				for env, v := range out {
+					if old, ok := dst[env]; !ok {
+						dst[env] = v
+						changed = true
+					} else if nv := pf.j(old, v); nv != old {
+						dst[env] = nv
+						changed = true
+					}
+				}
+			}
+			if changed {
+				work = append(work, s)
+			}
+		}
+	}
+	process(start.B, start.Idx, startState)
+	for len(work) > 0 {
+		b := work[len(work)-1]
+		work = work[:len(work)-1]
+		process(b, 0, pf.in[b])
+	}
+}
+
+// stateAt: the (joined) rule state just before node l.Idx of block l.B (blocks entered at their start only).
+func (pf *c15PFlow) stateAt(l Loc) (int, bool) {
+	m := -1
+	seenAny := false
+	through := func(st c15PState, from int) {
+		cur := c15PState{}
+		for k, v := range st {
+			cur[k] = v
+		}
+		for i := from; i < l.Idx; i++ {
+			next := c15PState{}
+			for env, v := range cur {
+				nv := pf.transfer(l.B.Nodes[i], v)
+				ne := pf.envAfter(l.B.Nodes[i], env)
+				if old, ok := next[ne]; ok {
+					nv = pf.j(old, nv)
+				}
+				next[ne] = nv
+			}
+			cur = next
+		}
+		for _, v := range cur {
+			if !seenAny {
+				m, seenAny = v, true
+			} else {
+				m = pf.j(m, v)
+			}
+		}
+	}
+	if st := pf.in[l.B]; st != nil {
+		through(st, 0)
+	}
+	if l.B == pf.start.B && l.Idx >= pf.start.Idx {
+		through(c15PState{"": pf.init}, pf.start.Idx)
+	}
+	return m, seenAny
+}
+
+// c15BoolBody turns a body made of `if c { ... }` and `return e` into the condition under which it
+// returns true (nil if the body has any other statement). Constant sub-results are folded.
+func c15BoolBody(info *types.Info, list []ast.Stmt) *c15F {
+	list = c15Flat(list)
+	if len(list) == 0 {
+		return nil
+	}
+	switch t := list[0].(type) {
+	case *ast.ReturnStmt:
+		if len(t.Results) != 1 {
+			return nil
+		}
+		return c15Simplify(c15Formula(info, t.Results[0]))
+	case *ast.IfStmt:
+		if t.Init != nil {
+			return nil
+		}
+		cnd := c15Formula(info, t.Cond)
+		thenF := c15BoolBody(info, append(append([]ast.Stmt{}, t.Body.List...), list[1:]...))
+		var elseList []ast.Stmt
+		if t.Else != nil {
+			elseList = append(elseList, t.Else)
+		}
+		elseF := c15BoolBody(info, append(elseList, list[1:]...))
+		if thenF == nil || elseF == nil {
+			return nil
+		}
+		return c15Simplify(&c15F{op: "or", a: &c15F{op: "and", a: cnd, b: thenF}, b: &c15F{op: "and", a: &c15F{op: "not", a: cnd}, b: elseF}})
+	}
+	return nil
+}
+
+func c15Simplify(f *c15F) *c15F {
+	switch f.op {
+	case "not":
+		a := c15Simplify(f.a)
+		if a.op == "const" {
+			return &c15F{op: "const", val: !a.val}
+		}
+		return &c15F{op: "not", a: a}
+	case "and", "or":
+		a, b := c15Simplify(f.a), c15Simplify(f.b)
+		unit := f.op == "and" // and: true is the unit, false absorbs
+		for _, pr := range [][2]*c15F{{a, b}, {b, a}} {
+			if pr[0].op == "const" {
+				if pr[0].val == unit {
+					return pr[1]
+				}
+				return &c15F{op: "const", val: !unit}
+			}
+		}
+		return &c15F{op: f.op, a: a, b: b}
+	}
+	return f
 }
